@@ -4,8 +4,6 @@ package main
 
 import (
 	"fmt"
-	"go/token"
-	"sort"
 	"strings"
 
 	"golang.org/x/tools/go/ssa"
@@ -15,302 +13,20 @@ func init() {
 	register(&propDef{
 		id: "C15", level: "other", run: runC15,
 		trusted: []string{"strings.SplitN(s, sep, 2) splits at the first occurrence of sep", "strings.IndexFunc returns < 0 iff no rune satisfies the predicate", "unicode.IsSpace"},
-		explain: "Decides the validation gates on every success path of NewJid (R1: the nil-error return is unreachable once any one of the five gates is removed), the split discipline (R2: first SplitN on \"@\" with limit 2, then SplitN of the domain part on \"/\" with limit 2, resource = everything after the first \"/\"), the validators' tables (R3: empty domain rejected; whitespace, '@' and '/' rejected in local part and domain) and, for Full() and Bare(), the rendering on every path with the emptiness of each part known from the path's conditions (R4: the rendering must be [Node \"@\"] Domain [\"/\" Resource]; a part read where it is known to be empty is a contradiction). Not decided: NewJid as a function on all strings.",
+		explain: "Interprets every success path of NewJid over symbolic string terms (before/after the first occurrence of a separator, recognised for SplitN(_,_,2) and for Index+slicing alike) and decides the five validation gates (R1) and the parts stored (R2: node = text before the first '@', resource = everything after the first '/' of what follows it), the validators as \"no rune satisfies a predicate that is true for whitespace and for a table containing '@' and '/'\" (R3; empty domain rejected) and, for Full() and Bare(), the rendering on every path with the emptiness of each part known from the path's conditions (R4: the rendering must be [Node \"@\"] Domain [\"/\" Resource]; a part read where it is known to be empty is a contradiction). Not decided: NewJid as a function on all strings.",
 	})
 }
 
 func runC15(w *World, r *Report, tier string) {
-	r.Rule("R1", "gates: `return jid, nil` is unreachable once any one gate's passing edges are deleted: sjid != \"\"; with '@' present: local part != \"\" and domain part != \"\"; isUsernameValid(jid.Node); isDomainValid(jid.Domain)")
-	r.Rule("R2", "split discipline: SplitN(sjid, \"@\", 2) then SplitN(jid.Domain, \"/\", 2); Node = first[0]; Domain = first[0] when there is no '@' else first[1], then second[0]; Resource = second[1]")
-	r.Rule("R3", "validators: isDomainValid is false for length 0; both validators are `IndexFunc(s, isInvalid(table)) < 0`; isInvalid's predicate is true for unicode.IsSpace and for every rune of the table; both tables contain '@' and '/'")
+	r.Rule("R1", "gates: every success path of NewJid has established: S != \"\"; with '@' present: before(S,'@') != \"\" and after(S,'@') != \"\"; isUsernameValid(final Node); isDomainValid(final Domain)")
+	r.Rule("R2", "parts: on every success path of NewJid, with S the argument: Node = before(S,'@') if S contains '@' else \"\"; D0 = after(S,'@') resp. S; Domain = before(D0,'/') and Resource = after(D0,'/') if D0 contains '/', else Domain = D0 and Resource = \"\" — before/after meaning the first occurrence, whichever idiom computes them (SplitN(_,_,2), Index + slicing)")
+	r.Rule("R3", "validators: isDomainValid is false for the empty string; each validator returns true only as \"no rune of the string satisfies P\" where P(c) is true whenever unicode.IsSpace(c) and whenever c is in a table that contains '@' and '/'")
 	r.Rule("R4", "renderings: on every path of Full()/Bare(), after dropping parts known to be empty, the result is [Node \"@\"] Domain [\"/\" Resource] with exactly the non-empty parts")
 
 	nj := w.Func("stanza.NewJid")
 	r.Anchor("stanza.NewJid")
-	sjid := nj.Params[0]
-	okRet := func(in ssa.Instruction) bool {
-		rt, ok := in.(*ssa.Return)
-		return ok && isNilConst(rt.Results[1])
-	}
-	splits := w.callsInH(nj, "strings.SplitN", "strings.Split")
-	var first, second *ssa.Call
-	for _, s := range splits {
-		c := s.(*ssa.Call)
-		sep, _ := stringConst(c.Call.Args[1])
-		if sep == "@" && first == nil {
-			first = c
-		} else if sep == "/" && second == nil {
-			second = c
-		}
-	}
-	// R2
-	okSplit := first != nil && second != nil && len(splits) == 2
-	detail := ""
-	if !okSplit {
-		detail = fmt.Sprintf("expected SplitN on \"@\" and on \"/\", found %d split calls", len(splits))
-	} else {
-		lim := func(c *ssa.Call) int64 {
-			if len(c.Call.Args) < 3 {
-				return -1
-			}
-			n, _ := intConst(c.Call.Args[2])
-			return n
-		}
-		if first.Call.Args[0] != ssa.Value(sjid) || lim(first) != 2 {
-			okSplit, detail = false, "the first split is not SplitN(sjid, \"@\", 2): a '@' inside the resource would be taken for the separator"
-		}
-		if f, _ := loadedField(second.Call.Args[0]); f == nil || f.Name() != "Domain" || lim(second) != 2 {
-			okSplit, detail = false, "the second split is not SplitN(<domain part>, \"/\", 2): the resource would not be everything after the first '/'"
-		}
-		if okSplit && !reachable(after(first), func(in ssa.Instruction) bool { return in == ssa.Instruction(second) }, nil, nil) {
-			okSplit, detail = false, "the '/' split happens before the '@' split"
-		}
-	}
-	r.Check(okSplit, "R2", "stanza.NewJid#splits", w.pos(nj.Pos()), detail, "SplitN(sjid,\"@\",2) ≺ SplitN(jid.Domain,\"/\",2)")
-	if okSplit {
-		// assignments
-		elemOf := func(v ssa.Value) (*ssa.Call, int64) {
-			u, ok := v.(*ssa.UnOp)
-			if !ok {
-				return nil, -1
-			}
-			ia, ok := u.X.(*ssa.IndexAddr)
-			if !ok {
-				return nil, -1
-			}
-			c, ok := ia.X.(*ssa.Call)
-			if !ok {
-				return nil, -1
-			}
-			i, _ := intConst(ia.Index)
-			return c, i
-		}
-		var got []string
-		allInstrs(nj, func(in ssa.Instruction) {
-			st, ok := in.(*ssa.Store)
-			if !ok {
-				return
-			}
-			fa, ok := st.Addr.(*ssa.FieldAddr)
-			if !ok {
-				return
-			}
-			c, i := elemOf(st.Val)
-			which := "?"
-			if c == first {
-				which = "first"
-			} else if c == second {
-				which = "second"
-			}
-			got = append(got, fmt.Sprintf("%s=%s[%d]", fieldOfAddr(fa).Name(), which, i))
-		})
-		sort.Strings(got)
-		want := []string{"Domain=first[0]", "Domain=first[1]", "Domain=second[0]", "Node=first[0]", "Resource=second[1]"}
-		r.Check(strings.Join(got, ",") == strings.Join(want, ","), "R2", "stanza.NewJid#assignments", w.pos(nj.Pos()), "the parts are not taken from the split results as specified: "+strings.Join(got, ","), strings.Join(got, ","))
-		// Domain=first[0] only when len(first)==1; Node only otherwise; second used only when len==2
-	}
-
-	// R1 gates
-	type gate struct {
-		name string
-		cut  EdgeSet
-	}
-	lenIs := func(c *ssa.Call, n int64) func(cv ssa.Value, truth bool) bool {
-		return func(cv ssa.Value, truth bool) bool {
-			bo, ok := cv.(*ssa.BinOp)
-			if !ok || (bo.Op != token.EQL && bo.Op != token.NEQ) {
-				return false
-			}
-			lc, ok := bo.X.(*ssa.Call)
-			if !ok || w.callKey(lc) != "builtin.len" || lc.Call.Args[0] != ssa.Value(c) {
-				return false
-			}
-			k, isK := intConst(bo.Y)
-			return isK && k == n && ((bo.Op == token.EQL) == truth)
-		}
-	}
-	nonEmptyElem := func(c *ssa.Call, idx int64) func(cv ssa.Value, truth bool) bool {
-		return func(cv ssa.Value, truth bool) bool {
-			bo, ok := cv.(*ssa.BinOp)
-			if !ok || (bo.Op != token.EQL && bo.Op != token.NEQ) {
-				return false
-			}
-			s, isS := stringConst(bo.Y)
-			if !isS || s != "" {
-				return false
-			}
-			u, ok := bo.X.(*ssa.UnOp)
-			if !ok {
-				return false
-			}
-			ia, ok := u.X.(*ssa.IndexAddr)
-			if !ok || ia.X != ssa.Value(c) {
-				return false
-			}
-			i, _ := intConst(ia.Index)
-			return i == idx && ((bo.Op == token.NEQ) == truth)
-		}
-	}
-	var gates []gate
-	gates = append(gates, gate{"sjid != \"\"", edgesAsserting(nj, func(cv ssa.Value, truth bool) bool {
-		bo, ok := cv.(*ssa.BinOp)
-		if !ok || bo.X != ssa.Value(sjid) {
-			return false
-		}
-		s, isS := stringConst(bo.Y)
-		return isS && s == "" && ((bo.Op == token.NEQ) == truth)
-	})})
-	if first != nil {
-		noAt := edgesAsserting(nj, lenIs(first, 1))
-		gates = append(gates, gate{"local part != \"\" (when '@' present)", edgesAsserting(nj, nonEmptyElem(first, 0)).union(noAt)})
-		gates = append(gates, gate{"domain part != \"\" (when '@' present)", edgesAsserting(nj, nonEmptyElem(first, 1)).union(noAt)})
-	}
-	validGate := func(key, field string) EdgeSet {
-		return edgesAsserting(nj, func(cv ssa.Value, truth bool) bool {
-			c, _ := callResult(cv)
-			if c == nil || !truth || w.callKey(c) != key {
-				return false
-			}
-			f, _ := loadedField(c.Call.Args[0])
-			return f != nil && f.Name() == field
-		})
-	}
-	gates = append(gates, gate{"isUsernameValid(jid.Node)", validGate("stanza.isUsernameValid", "Node")})
-	gates = append(gates, gate{"isDomainValid(jid.Domain)", validGate("stanza.isDomainValid", "Domain")})
-	for _, g := range gates {
-		ok := len(g.cut) > 0 && !reachable(entryLoc(nj), okRet, nil, g.cut)
-		r.Check(ok, "R1", "stanza.NewJid#gate:"+g.name, w.pos(nj.Pos()), "a JID can be accepted without passing the check "+g.name, "nil-error return unreachable without it")
-	}
-	// the validators run on the final parts (after the '/' split)
-	if second != nil {
-		for _, k := range []string{"stanza.isUsernameValid", "stanza.isDomainValid"} {
-			for _, c := range w.callsInH(nj, k) {
-				ok, _ := mustPass(entryLoc(nj), func(in ssa.Instruction) bool { return in == c.(ssa.Instruction) }, func(in ssa.Instruction) bool { return in == ssa.Instruction(second) }, nil)
-				r.Check(ok, "R1", "stanza.NewJid#"+strings.TrimPrefix(k, "stanza.")+"-after-split", w.ipos(c), "a part is validated before the resource has been split off: a '/' in the resource makes a valid JID invalid, or an invalid domain is accepted", "validated after the '/' split")
-			}
-		}
-	}
-
-	// R3 validators
-	for _, spec := range []struct {
-		key      string
-		needLen0 bool
-	}{{"stanza.isUsernameValid", false}, {"stanza.isDomainValid", true}} {
-		fn := w.Func(spec.key)
-		p := fn.Params[0]
-		// every `return X` : const false, or IndexFunc(p, isInvalid(table)) < 0
-		okForm := true
-		var table []int64
-		allInstrs(fn, func(in ssa.Instruction) {
-			rt, ok := in.(*ssa.Return)
-			if !ok {
-				return
-			}
-			if b, isC := boolConst(rt.Results[0]); isC {
-				if b {
-					okForm = false
-				}
-				return
-			}
-			bo, ok := rt.Results[0].(*ssa.BinOp)
-			if !ok || bo.Op != token.LSS {
-				okForm = false
-				return
-			}
-			z, isZ := intConst(bo.Y)
-			c, isCall := bo.X.(*ssa.Call)
-			if !isZ || z != 0 || !isCall || w.callKey(c) != "strings.IndexFunc" || c.Call.Args[0] != ssa.Value(p) {
-				okForm = false
-				return
-			}
-			mk, isMk := c.Call.Args[1].(*ssa.Call)
-			if !isMk || w.callKey(mk) != "stanza.isInvalid" {
-				okForm = false
-				return
-			}
-			for _, e := range sliceLitElems(mk.Call.Args[0]) {
-				v, _ := intConst(e)
-				table = append(table, v)
-			}
-		})
-		has := func(r rune) bool {
-			for _, v := range table {
-				if v == int64(r) {
-					return true
-				}
-			}
-			return false
-		}
-		r.Check(okForm && has('@') && has('/'), "R3", spec.key+"#table", w.pos(fn.Pos()), fmt.Sprintf("the validator is not `IndexFunc(s, isInvalid(table)) < 0` with '@' and '/' in its table (table %v)", table), fmt.Sprintf("IndexFunc(s, isInvalid(%d runes incl. '@','/')) < 0", len(table)))
-		if spec.needLen0 {
-			cut := edgesAsserting(fn, func(cv ssa.Value, truth bool) bool {
-				bo, ok := cv.(*ssa.BinOp)
-				if !ok {
-					return false
-				}
-				z, isZ := intConst(bo.Y)
-				if lc, ok := bo.X.(*ssa.Call); ok && w.callKey(lc) == "builtin.len" && lc.Call.Args[0] == ssa.Value(p) && isZ && z == 0 {
-					return (bo.Op == token.NEQ) == truth || (bo.Op == token.GTR && truth)
-				}
-				if s, isS := stringConst(bo.Y); isS && s == "" && bo.X == ssa.Value(p) {
-					return (bo.Op == token.NEQ) == truth
-				}
-				return false
-			})
-			notFalse := func(in ssa.Instruction) bool {
-				rt, ok := in.(*ssa.Return)
-				if !ok {
-					return false
-				}
-				b, isC := boolConst(rt.Results[0])
-				return !isC || b
-			}
-			r.Check(len(cut) > 0 && !reachable(entryLoc(fn), notFalse, nil, cut), "R3", spec.key+"#empty", w.pos(fn.Pos()), "an empty domain is not rejected", "false for length 0")
-		}
-	}
-	// isInvalid's predicate
-	pred := w.FuncOpt("stanza.isInvalid$1")
-	if pred == nil {
-		r.Undecided("R3", "stanza.isInvalid$1", "-", "the rune predicate is not a closure of isInvalid")
-	} else {
-		c := pred.Params[0]
-		spaceEdges := edgesAsserting(pred, func(cv ssa.Value, truth bool) bool {
-			call, _ := callResult(cv)
-			return call != nil && !truth && w.callKey(call) == "unicode.IsSpace" && call.Call.Args[0] == ssa.Value(c)
-		})
-		retFalse := func(in ssa.Instruction) bool {
-			rt, ok := in.(*ssa.Return)
-			if !ok {
-				return false
-			}
-			b, isC := boolConst(rt.Results[0])
-			return !isC || !b
-		}
-		r.Check(len(spaceEdges) > 0 && !reachable(entryLoc(pred), retFalse, nil, spaceEdges), "R3", "stanza.isInvalid$1#space", w.pos(pred.Pos()), "whitespace is not rejected", "unicode.IsSpace(c) ⇒ true")
-		neqEdges := edgesAsserting(pred, func(cv ssa.Value, truth bool) bool {
-			bo, ok := cv.(*ssa.BinOp)
-			if !ok || (bo.Op != token.EQL && bo.Op != token.NEQ) || bo.X != ssa.Value(c) {
-				return false
-			}
-			u, ok := bo.Y.(*ssa.UnOp)
-			if !ok {
-				return false
-			}
-			_, isIdx := u.X.(*ssa.IndexAddr)
-			return isIdx && ((bo.Op == token.NEQ) == truth)
-		})
-		// with the "c != table[i]" edges cut, the loop cannot continue, so `return false` is unreachable from inside the loop body
-		loops := findRangeLoops(pred)
-		okLoop := len(loops) == 1 && len(neqEdges) > 0
-		if okLoop {
-			okLoop = !reachable(Loc{loops[0].body, 0}, retFalse, nil, neqEdges)
-			// the loop ranges over the captured table
-			if u, ok := loops[0].slice.(*ssa.UnOp); !ok || func() bool { _, isFV := u.X.(*ssa.FreeVar); return !isFV }() {
-				okLoop = false
-			}
-		}
-		r.Check(okLoop, "R3", "stanza.isInvalid$1#table-membership", w.pos(pred.Pos()), "a rune of the forbidden table is not rejected", "c == table[i] ⇒ true, for every i")
-	}
+	c15NewJid(w, r, nj)
+	c15Validators(w, r)
 
 	// R4 renderings
 	bare := w.Func("stanza.(*Jid).Bare")
@@ -335,27 +51,32 @@ func runC15(w *World, r *Report, tier string) {
 	check := func(name string, rs []rendering, wantResource bool) {
 		n := 0
 		for _, rd := range rs {
-			// inline Bare()
-			var expanded []rendering
-			inl := false
+			// inline Bare() wherever it occurs in the concatenation
+			expanded := []rendering{{rd.conds, nil, rd.at}}
 			for _, a := range rd.atoms {
+				isBare := false
 				if c, ok := a.Val.(*ssa.Call); ok && !a.IsC && w.callKey(c) == "stanza.Jid.Bare" {
-					inl = true
+					isBare = true
 				}
-			}
-			if inl && len(rd.atoms) == 1 {
-				for _, b := range bareR {
-					expanded = append(expanded, rendering{append(append([]string{}, rd.conds...), b.conds...), b.atoms, rd.at})
+				var next []rendering
+				for _, e := range expanded {
+					if !isBare {
+						next = append(next, rendering{e.conds, append(append([]atom{}, e.atoms...), a), e.at})
+						continue
+					}
+					for _, b := range bareR {
+						next = append(next, rendering{append(append([]string{}, e.conds...), b.conds...), append(append([]atom{}, e.atoms...), b.atoms...), e.at})
+					}
 				}
-			} else {
-				expanded = []rendering{rd}
+				expanded = next
 			}
 			for _, e := range expanded {
 				n++
 				empty := map[string]int{} // 1 known empty, 2 known non-empty
 				for _, c := range e.conds {
+					c = stableCons(c)
 					for _, f := range []string{"Node", "Domain", "Resource"} {
-						if strings.HasPrefix(c, `eq("",field:param:j.`+f+`)=`) {
+						if strings.HasPrefix(c, `eq("",field:param:_.`+f+`)=`) {
 							if strings.HasSuffix(c, "=true") {
 								empty[f] = 1
 							} else {
